@@ -516,3 +516,15 @@ def search(ctx, verdict, problems):
 # Put, no goroutine sharing a buffer with its spawner
 TRUSTED = list(TRUSTED) + ['generated obligations Proofs/AtomFront.v about coq/Gen/Atomicity.v (tools/lockscan, go/ast: package-level variables with the kind of their type, sync.Pool.Put sites with the later mentions of the object or of a local view of its memory - slicings, dereferences, appends, local function literals that mention it, results handed out by a function whose Put is deferred -, variables shared by go statements); re-proved on every run, in a private re-generated copy under VERIF_EXTRA_OVERLAY']
 MANIFEST = dict(MANIFEST, level_note=MANIFEST.get('level_note', '') + ' Generated obligation Proofs/AtomFront.v (re-proved about the source on every run): in the front-door code no byte buffer lives at package level, no pooled object or local view of it is used after its Put, no goroutine shares a buffer with its spawner - what lets the models treat a connection\'s first packet, parsed hello and reply as values of that connection alone.')
+
+
+# ---- nothing but application-data records after the handshake also means: the READ side never writes (an oversize record
+# is an error for the caller, not an alert on the wire) - harness/common/relay_copy_test.go, TestVerifRelayDeadlines
+_corr_before_readside = correspondence
+
+
+def correspondence(ctx, verdict, pr):
+    res = _corr_before_readside(ctx, verdict, pr)
+    import relaylib
+    res['broken'] += relaylib.run_deadlines(ctx, verdict, 'C10')
+    return res
